@@ -183,6 +183,8 @@ pub struct Driver<const N: usize> {
     pub snapshots_on: bool,
     /// mismatches found while executing an action (reported with the step's comparison)
     pub pending: Vec<Mismatch>,
+    /// ids of unreadable blob files left in the work directory (ignore_corrupted)
+    pub ignored: std::collections::HashSet<u64>,
 }
 
 pub fn blob_path(dir: &Path, id: u64) -> PathBuf {
@@ -246,6 +248,7 @@ impl<const N: usize> Driver<N> {
             snaps: HashMap::new(),
             snapshots_on: false,
             pending: Vec::new(),
+            ignored: Default::default(),
         }
     }
 
@@ -492,6 +495,9 @@ impl<const N: usize> Driver<N> {
                     let cut = if len > 25 { 25 } else { len.min(10) };
                     truncate(&p, cut);
                     self.snaps.remove(&act.k);   // the driver itself changed these bytes
+                    if self.cfg.ignore_corrupted {
+                        self.ignored.insert(act.k);
+                    }
                     if let Some(r) = &self.rec {
                         r.file_event("damage", &format!("b{}", act.k), "blob", act.k as i64);
                     }
@@ -810,7 +816,7 @@ impl<const N: usize> Driver<N> {
         // disk_used against the directory listing
         let du = st.disk_used().await;
         let mut live: Vec<u64> = c.closed.iter().map(|x| x.0).collect();
-        let files = list_files(&self.dir);
+        let files: Vec<_> = list_files(&self.dir).into_iter().filter(|f| !self.ignored.contains(&f.0)).collect();
         if c.activeCnt >= 0 {
             // the active blob is the live id not listed among the closed ones: the highest
             // id among blob files that is not closed (spec: active > every closed id)
